@@ -149,6 +149,9 @@ def run(ctx):
         "uncached_enumeration_cut_off": bf.counters.get("bf_cut_off", 0),
         "search_audits": au.n,
         "deviation_bounded": "nothing: every short-read pattern of every message is explored",
+        "v3_client_decoder_items": acc.counters.get("v3_client_items", 0),
+        "v3_client_decoder_items_with_a_read_boundary_at_each_of_the_23_positions_inside_the_version_marker":
+            acc.counters.get("v3_client_items_cut_at_every_marker_byte", 0),
         "distinct_nontrivial": len(acc.nontrivial),
         "distinct_outcome_classes": len(acc.outcomes),
         "rule": "one case = one (reader, message or request sequence); non-trivial = at least 2 bytes on the wire",
